@@ -41,6 +41,21 @@ func (r *c19run) exec(op SOp) {
 		for i := 0; i <= 3+op.I%4; i++ {
 			r.forge(who, -(i & 1), -((i >> 1) & 1), 1+op.X+i)
 		}
+	case "fragflood":
+		// unauthenticated one-piece fragments with reserved, foreign or unparsable instance tags (version 3 headers)
+		own := w.P[who].C.GetOurInstanceTag()
+		for i := 0; i <= 2+op.I%3; i++ {
+			forms := []string{
+				fmt.Sprintf("?OTR|%08x|%08x,00001,00001,AAAA,", 1+i, own),
+				fmt.Sprintf("?OTR|%08x|%08x,00001,00001,AAAA,", 0x4242+i, own+7),
+				fmt.Sprintf("?OTR|%08x|%08x,00001,00002,AAAA,", 0x100+i, 5),
+				"?OTR,1,1,AAAA,",
+				"?OTR|zz|yy,1,1,AAAA,",
+			}
+			before := len(w.Q[who])
+			w.Receive(who, []byte(forms[(i+op.F)%len(forms)]))
+			w.Q[who] = w.Q[who][:before]
+		}
 	case "errreq":
 		// an unauthenticated "?OTR Error" asks for the last message again at the next key exchange
 		w.Receive(who, []byte("?OTR Error: could not read that"))
@@ -169,7 +184,7 @@ func runC19(sc *CycleScript) *sim.Outcome {
 			switch op.K {
 			case "pp", "burst":
 				accepted = true
-			case "forge", "forgealt", "garbage", "rejake", "replayflood", "errreq":
+			case "forge", "forgealt", "garbage", "rejake", "replayflood", "errreq", "fragflood":
 				rejected = true
 			}
 		}
@@ -235,7 +250,7 @@ func init() { reg("C19cycles", runC19); reg("C19patterns", runC19) }
 
 func TestProp_C19_Cycles(t *testing.T) {
 	defer sim.MarkCompleted("C19cycles", false)
-	kinds := []string{"pp", "pp", "pp", "burst", "burst", "forge", "forge", "forgealt", "forgealt", "errreq", "garbage", "rejake", "rekey", "rekey", "smprun", "age", "replayflood"}
+	kinds := []string{"pp", "pp", "pp", "burst", "burst", "forge", "forge", "forgealt", "forgealt", "errreq", "fragflood", "garbage", "rejake", "rekey", "rekey", "smprun", "age", "replayflood"}
 	maxN := 10
 	if sim.Thorough() {
 		maxN = 32
@@ -279,6 +294,12 @@ func TestProp_C19_Patterns(t *testing.T) {
 		{{K: "forgealt", W: 1, I: 1}, {K: "forge", W: 1, L: 2, F: 1, X: 3}},
 		{{K: "forgealt", W: 0}, {K: "burst", W: 0, I: 1}},
 		{{K: "garbage", W: 0}, {K: "replayflood", W: 0}},
+		{{K: "fragflood", W: 0, I: 2}},
+		{{K: "fragflood", W: 1, I: 1, F: 1}, {K: "garbage", W: 1}},
+		// one side only listens: its only output is the heartbeat after a silence
+		{{K: "age", W: 0}, {K: "burst", W: 1, I: 2}},
+		{{K: "age", W: 1}, {K: "burst", W: 0, I: 3}, {K: "burst", W: 0, I: 1}},
+		{{K: "age", W: 0}, {K: "age", W: 1}, {K: "burst", W: 1, I: 1}, {K: "fragflood", W: 0}},
 		// the user stays silent after one message while the peer keeps asking for it again and re-keying
 		{{K: "errreq", W: 0}, {K: "age", W: 0}, {K: "age", W: 1}, {K: "rekey", W: 1}},
 		{{K: "errreq", W: 1}, {K: "age", W: 0}, {K: "age", W: 1}, {K: "rekey", W: 1}},
